@@ -1,6 +1,7 @@
 import SJ.Basic
 import SJ.Generated.GoTables
 import SJ.Model.Access
+import SJ.Model.Number
 set_option linter.unusedVariables false
 /-
 GoSem — a small imperative language with a big-step interpreter, the target of the Go→Lean translator
@@ -44,7 +45,7 @@ inductive Val where
   deriving DecidableEq, Repr, Inhabited
 
 inductive BinOp where
-  | add | sub | and | or | shr | shl | eq | ne | lt | le | gt | ge
+  | add | sub | and | or | shr | shl | eq | ne | lt | le | gt | ge | xor
   deriving DecidableEq, Repr
 
 inductive Expr where
@@ -67,6 +68,8 @@ inductive Expr where
   | appendB (a b : Expr)                    -- `append(a, b...)` of byte slices (the new content of the slice)
   | idxB (a i : Expr)                       -- `a[i]` of a byte slice
   | nilB                                    -- `nil` as a byte slice
+  | litB (bs : List Nat)                    -- `[]byte("…")`: the bytes of a string literal
+  | le32 (a : Expr)                         -- `binary.LittleEndian.Uint32(a)` (a uint32 is carried as a `u64` below 2^32)
   | lenK (a : Expr)                         -- `len(m)` of a key set
   | inK (m k : Expr)                        -- `_, ok := m[string(k)]`
   | eqB (a b : Expr)                        -- equality of two byte strings (`string(a) == b`)
@@ -97,6 +100,7 @@ inductive Stmt where
       -- `t1, t2 = recv.fn(ptrs…, args…)` (`_` ignores a result); `ptrs` are the pointer-to-struct arguments, by name
   | retCall (recv fn : String) (ptrs : List String) (args : List Expr)   -- `return recv.fn(ptrs…, args…)`
   | rangeIB (iv v : String) (e : Expr) (body : List Stmt)   -- `for iv, v := range e { body }`, `e` a byte slice
+  | extAssign (targets : List String) (name : String) (args : List Expr)   -- results of a modelled library function
   | cb (target fn : String) (logs : List Expr)
       -- `target = fn(...)` for a function-valued parameter `fn`: the answer is the next element of the variable
       -- `fn.results` (a `Val.bools`; not consumed when `target` is `_`), and the integers `logs` evaluate to are
@@ -144,7 +148,9 @@ inductive Out where
   deriving Repr, Inhabited
 
 def tblLookup (name : String) (i : Nat) : Option Val :=
-  if name == "TagToType" then some (.u8 (SJ.Generated.tTagToType.getD i 0).toUInt8)
+  if name == "isNumberRune" then some (.u8 (SJ.Generated.tIsNumberRune.getD i 0).toUInt8)
+  else if name == "structuralOrWhitespaceNegated" then some (.u8 (SJ.Generated.tStructuralOrWhitespaceNegated.getD i 0).toUInt8)
+  else if name == "TagToType" then some (.u8 (SJ.Generated.tTagToType.getD i 0).toUInt8)
   else if name == "tagOpenToClose" then some (.u8 (SJ.Generated.tTagOpenToClose.getD i 0).toUInt8)
   else none
 
@@ -156,6 +162,7 @@ def binop (op : BinOp) (a b : Val) : Option Val :=
   | .sub, .u64 x, .u64 y => some (.u64 (x - y))
   | .and, .u64 x, .u64 y => some (.u64 (x &&& y))
   | .or,  .u64 x, .u64 y => some (.u64 (x ||| y))
+  | .xor, .u64 x, .u64 y => some (.u64 (x ^^^ y))
   | .shr, .u64 x, .int y => if 0 ≤ y ∧ y < 64 then some (.u64 (x >>> UInt64.ofNat y.toNat)) else none
   | .shl, .u64 x, .int y => if 0 ≤ y ∧ y < 64 then some (.u64 (x <<< UInt64.ofNat y.toNat)) else none
   | .eq, .int x, .int y => some (.bool (x == y))
@@ -199,6 +206,33 @@ def convert (ty : Ty) (a : Val) : Option Val :=
 /-- `binary.LittleEndian.Uint64` of the first eight bytes -/
 def leU64 (b : Bytes) : UInt64 :=
   (List.range 8).foldl (fun acc k => acc ||| ((b.getD k 0).toUInt64 <<< (UInt64.ofNat (8 * k)))) 0
+
+/-- `binary.LittleEndian.Uint32` of the first four bytes -/
+def leU32 (b : Bytes) : UInt64 :=
+  (List.range 4).foldl (fun acc k => acc ||| ((b.getD k 0).toUInt64 <<< (UInt64.ofNat (8 * k)))) 0
+
+/-- the `strconv` functions `parseNumber` calls, as modelled in `Model/Number.lean` (ParseInt and ParseUint exactly,
+    ParseFloat by contract: correctly rounded, an error iff the syntax is wrong or the result is infinite).
+    Results: value, `err != nil`, `errors.Is(err, strconv.ErrRange)`. -/
+def extCall (name : String) (args : List Val) : Option (List Val) :=
+  match args with
+  | [.bytes b] =>
+    if name == "ParseInt" then
+      match parseInt64 b.toList with
+      | .ok z => some [.int z, .bool false, .bool false]
+      | .error .syntax => some [.int 0, .bool true, .bool false]
+      | .error .range => some [.int 0, .bool true, .bool true]
+    else if name == "ParseUint" then
+      match parseUint64 b.toList with
+      | .ok n => some [.u64 (UInt64.ofNat n), .bool false, .bool false]
+      | .error .syntax => some [.u64 0, .bool true, .bool false]
+      | .error .range => some [.u64 0, .bool true, .bool true]
+    else if name == "ParseFloat" then
+      match parseFloat64 b.toList with
+      | some bits => some [.u64 bits, .bool false, .bool false]
+      | none => some [.u64 0, .bool true, .bool false]
+    else none
+  | _ => none
 
 /-- the value of `float64(K)` for an untyped integer constant `K` (Go converts the constant to the operand's type:
     `math.MaxInt64` becomes 2^63); every such value is an integer -/
@@ -286,6 +320,12 @@ def evalE (s : St) : Expr → EOut
     | .val _ => .stuck "append operand"
     | o => o
   | .nilB => .val (.bytes #[])
+  | .litB bs => .val (.bytes (bs.map UInt8.ofNat).toArray)
+  | .le32 a =>
+    match evalE s a with
+    | .val (.bytes b) => if b.size < 4 then .panic else .val (.u64 (leU32 b))
+    | .val _ => .stuck "Uint32 operand"
+    | o => o
   | .lenK a =>
     match evalE s a with
     | .val (.keys ks) => .val (.int ks.length)
@@ -560,6 +600,16 @@ def exec1 (funs : String → Option FunDef) : (fuel : Nat) → Stmt → St → O
     | .val (.bytes b) => execRangeI funs fuel iv v 0 b.toList body s
     | .val _ => .stuck "range operand"
     | o => ofE o
+  | fuel, .extAssign targets name args, s =>
+    match evalEs s args with
+    | .error o => ofE o
+    | .ok vs =>
+      match extCall name vs with
+      | none => .stuck ("library function " ++ name)
+      | some rs =>
+        match assignTargets targets rs s.env with
+        | some e => .normal { s with env := e }
+        | none => .stuck "result arity"
   | fuel, .cb target fn logs, s =>
     match evalEs s logs with
     | .error o => ofE o
